@@ -240,7 +240,8 @@ Inductive frame :=
 | MetaSub (rows : list (N * (N * N) * (Z * Z * Z)))  (* user, (want, given), (read, recv, del) ; acs 0/0 when hidden *)
 | MetaDel (delid : Z) (ranges : list (Z * Z))
 | Info (what : N) (from : N) (seq : Z)
-| Evicted (unsub : bool).
+| Evicted (unsub : bool)
+| Push (seq : Z) (from : N) (rcpt : list N).   (* push receipt handed to the user cache; "session" 0 *)
 Definition P_seq := 1%N. Definition P_del := 2%N. Definition P_count := 3%N. Definition P_what := 4%N.
 Definition out := list (N * frame).   (* (session id, frame) in emission order *)
 
@@ -466,6 +467,18 @@ Definition fanout_info (c : cache) (skip : N) (what from : N) (seq : Z) : out :=
     if negb (is_reader (user_mode c u)) then [] else
     if N.eqb what K_kp && N.eqb u from then [] else [(sid, Info what from seq)]) (c_sess c).
 
+(* pushForData: subscribers whose effective mode has both P and R (sorted by user id for comparison) *)
+Fixpoint insert_n (x : N) (l : list N) : list N :=
+  match l with
+  | [] => [x]
+  | y :: r => if (x <=? y)%N then x :: l else y :: insert_n x r
+  end.
+Definition push_rcpt (c : cache) : list N :=
+  fold_right insert_n []
+    (map fst (filter (fun e => is_presencer (pud_mode (snd e)) && is_reader (pud_mode (snd e))) (c_users c))).
+Definition push_out (c : cache) (seq : Z) (from : N) : out :=
+  match push_rcpt c with [] => [] | l => [(0%N, Push seq from l)] end.
+
 (* saveAndBroadcastMessage + messagesMapper.Save (no attachments) *)
 Definition publish (f : fault) (s : store) (c : cache) (n : nat) (sid u : N) (content : N) (noecho : bool) : hres :=
   let p := get_pud c u in
@@ -486,7 +499,8 @@ Definition publish (f : fault) (s : store) (c : cache) (n : nat) (sid u : N) (co
     let s3 := if reader && ok3 then ad_subs_update s2 u (mkUpd None None (Some seq) (Some seq) None) else s2 in
     let c1 := c_set_lastid seq c in
     let c2 := if found then c_set_users (aset u (p_set_marks seq seq p)) c1 else c1 in
-    mkH s3 c2 n3 ((sid, Ctrl 202 [(P_seq, seq)]) :: fanout_data c2 (if noecho then sid else 0%N) (Data seq u content))
+    mkH s3 c2 n3 ((sid, Ctrl 202 [(P_seq, seq)]) :: fanout_data c2 (if noecho then sid else 0%N) (Data seq u content)
+                  ++ push_out c2 seq u)
   end.
 
 (* handleNoteBroadcast (read / recv / kp) *)
